@@ -510,6 +510,34 @@ func (rn *runner) generate() error {
 		}
 	}
 
+	// 6f. well-formed multipart bodies printed from part lists (modelled: Decode.mp_parse / mp_collect)
+	mpNames := []string{"a", "A", "f", "file", "a b", "q\"uote", "semi;colon", "back\\slash", "eq=x", "\xc3\xbc", "\xff", "n,a", "a/b", "", "x\\\"y", "tab\tx", "(p)", "k[0]", "per%41cent", "name*"}
+	mpFiles := []string{"a.txt", "e.php", "A.TXT", "q\"uote.txt", "semi;colon.bin", "C:\\dir\\f.txt", "\xc3\xbc.txt", "sp ace.txt", "x\\\"y", "a.txt", "..\\..\\etc", "f=1"}
+	mpBodies := []string{"", "hello", "a", "line1\r\nline2", "--", "\r\n", "\r\n--", "--XbOuNdArY7", "\r\n-", "\x00\xff", "v=1&w=2;%41+", "\r", "\n--XbOuNdArY7", "Content-Disposition: form-data; name=\"x\"", "\r\n--XbOuNdArY"}
+	mpBounds := []string{"XbOuNdArY7", "b", "----WebKitFormBoundary7MA4YWxk", "a-b_1.2", "0"}
+	for i := 0; i < cfg.Pick(350, 2500); i++ {
+		b := mpBounds[r.Intn(len(mpBounds))]
+		var parts [][3]string
+		for j, n := 0, r.Intn(6); j < n; j++ {
+			name := mpNames[r.Intn(len(mpNames))]
+			content := mpBodies[r.Intn(len(mpBodies))]
+			if r.Intn(3) == 0 {
+				content += randFrom(r, "ab\r\n-=", r.Intn(30))
+			}
+			fn := ""
+			if r.Intn(3) == 0 {
+				fn = mpFiles[r.Intn(len(mpFiles))]
+			}
+			parts = append(parts, [3]string{hx(name), hx(fn), hx(content)})
+		}
+		if !mpPartsOK(b, parts) {
+			continue
+		}
+		if err := run(&caseJSON{Kind: "mpmodel", Boundary: b, Parts: parts}); err != nil {
+			return err
+		}
+	}
+
 	// 7. multipart and XML: implementation-side round trip only (stdlib parsers are not modelled)
 	mpName := func() string {
 		const alpha = "abAB xy_-.[]%;=\"\\"
